@@ -71,7 +71,7 @@ func VerifC12Sort() {
 	n := nd.Param("N", 3)
 	var in []vP
 	for i := 0; i < n; i++ {
-		switch nd.Choose(6) {
+		switch nd.Choose(nd.Param("CLASSES", 6)) {
 		case 4:
 			in = append(in, &vValOrd{i: i, o: int(nd.Int64())})
 			nd.Cover("pointer of a type whose value is unordered")
